@@ -191,14 +191,112 @@ def sim_settings(rng, base, mode, *, big_tau=False, steps=None):
     return s
 
 
+# ----------------------------------------------------------------------------- input FORMS (the value is the same, the object differs)
+# initial state: what the caller hands to `initial_values` / `initial_state`
+X0_FORMS = ("arr_int", "arr_f64", "list_int", "list_float", "tuple_int", "tuple_float", "arr_i32", "scalar")
+NARROW_INT_FORMS = ("arr_i32",)
+# initial time.  The unchanged pygom needs a numpy scalar (`self._t0.tolist()` in `_jump`): the two Python forms are rejected there
+# with AttributeError, which is tagged and not judged; a tree that accepts them must give right answers.
+T0_FORMS = ("np_f64", "np_i64", "np_f32", "py_float", "py_int")
+SCALAR_TIME_KINDS = ("float", "int", "np_f64", "np_i64", "list1", "list1_int", "tuple1")
+GRID_KINDS = ("list", "tuple", "array", "list_int", "tuple_int", "array_int")
+
+
+def make_x0(values, form):
+    """the object handed to pygom for the initial state `values` (a list of Python ints kept by the harness)"""
+    vals = [int(v) for v in values]
+    if form == "scalar" and len(vals) == 1:
+        return vals[0]
+    return {"arr_int": lambda: np.array(vals), "arr_f64": lambda: np.array(vals, dtype=np.float64),
+            "list_int": lambda: list(vals), "list_float": lambda: [float(v) for v in vals],
+            "tuple_int": lambda: tuple(vals), "tuple_float": lambda: tuple(float(v) for v in vals),
+            "arr_i32": lambda: np.array(vals, dtype=np.int32), "scalar": lambda: np.array(vals)}[form or "arr_int"]()
+
+
+def make_t0(t0, form):
+    integral = float(t0) == int(t0)
+    form = form or "np_f64"
+    if form == "np_i64" and integral:
+        return np.int64(int(t0))
+    if form == "py_int" and integral:
+        return int(t0)
+    if form in ("py_float", "py_int"):
+        return float(t0)
+    if form == "np_f32" and float(np.float32(t0)) == float(t0):
+        return np.float32(t0)
+    return np.float64(t0)
+
+
+def time_spec(sim):
+    """{"kind", "values"} of a run; also reads the older fields (horizon_kind | grid + grid_kind) of stored cases"""
+    if sim.get("time"):
+        return sim["time"]
+    if sim.get("grid"):
+        return {"kind": sim.get("grid_kind", "list"), "values": list(sim["grid"])}
+    return {"kind": sim.get("horizon_kind", "float"), "values": [sim["T"]]}
+
+
+def time_obj(ts):
+    """the object handed to solve_stochast"""
+    k, v = ts["kind"], ts["values"]
+    if k in SCALAR_TIME_KINDS:
+        T = v[0]
+        return {"float": lambda: float(T), "int": lambda: int(T), "np_f64": lambda: np.float64(T), "np_i64": lambda: np.int64(int(T)),
+                "list1": lambda: [float(T)], "list1_int": lambda: [int(T)], "tuple1": lambda: (float(T),)}[k]()
+    return {"list": lambda: [float(g) for g in v], "tuple": lambda: tuple(float(g) for g in v), "array": lambda: np.array(v, float),
+            "list_int": lambda: [int(g) for g in v], "tuple_int": lambda: tuple(int(g) for g in v),
+            "array_int": lambda: np.array([int(g) for g in v])}[k]()
+
+
+def time_is_grid(ts):
+    """a one-element list / tuple is a horizon, a one-element ARRAY is a one-point grid (normalisation of solve_stochast)"""
+    return ts["kind"] in GRID_KINDS and (len(ts["values"]) > 1 or ts["kind"].startswith("array"))
+
+
+def lean_time_kind(ts):
+    k = ts["kind"]
+    return "number" if k in ("float", "int", "np_f64", "np_i64") else k.split("_")[0].replace("list1", "list").replace("tuple1", "tuple")
+
+
+def gen_scalar_time(r, T, kinds=SCALAR_TIME_KINDS):
+    k = r.choice(list(kinds))
+    if k in ("int", "np_i64", "list1_int"):
+        T = float(max(1, int(np.ceil(T))))
+    return {"kind": k, "values": [float(T)]}
+
+
+def gen_grid_time(r, t0, T, *, max_points=8, after_t0=0.1, past=(0.5, 1, 1, 3)):
+    """a grid of output times from t0 (or, with probability `after_t0`, from later) to t0 + (T-t0)*factor, float or integer valued"""
+    span = (T - t0) * r.choice(list(past))
+    n = r.randint(2, max_points)
+    k = r.choice(list(GRID_KINDS))
+    if k.endswith("_int"):
+        lo = int(np.ceil(t0)); hi = max(lo + 1, int(np.ceil(t0 + span)))
+        pts = sorted(set([lo, hi] + [r.randint(lo, hi) for _ in range(n - 2)]))
+        g = [float(v) for v in pts]
+    elif r.random() < 0.5:
+        g = [t0 + span * i / (n - 1) for i in range(n)]
+    else:
+        g = sorted(set([t0, t0 + span] + [t0 + span * r.random() for _ in range(n - 2)]))
+    if len(g) >= 3 and r.random() < after_t0:
+        g = g[1:]
+    return {"kind": k, "values": [float(v) for v in g]}
+
+
 def build_model(case):
+    """the real model of a case, configured as `case["sim"]` says; the objects handed over for the initial state and time are kept
+    on the instance (`_verif_x0_arg`, `_verif_t0_arg`) so that the caller can check afterwards that they were not written to"""
+    sim = case["sim"]
     model = pymodel.build(case["spec"], backend="lambda")
     model.parameters = {k: float(v) for k, v in case["params"].items()}
-    model.initial_values = (np.array(case["x0"]), np.float64(case["sim"]["t0"]))
-    if case["sim"].get("epsilon") is not None:
-        model._epsilon = case["sim"]["epsilon"]
-    if case["sim"].get("pre_tau") is not None:
-        model.pre_tau = case["sim"]["pre_tau"]
+    x0_arg = make_x0(case["x0"], sim.get("x0_form"))
+    t0_arg = make_t0(sim["t0"], sim.get("t0_form"))
+    model.initial_values = (x0_arg, t0_arg)
+    model._verif_x0_arg, model._verif_t0_arg = x0_arg, t0_arg
+    if sim.get("epsilon") is not None:
+        model._epsilon = sim["epsilon"]
+    if sim.get("pre_tau") is not None:
+        model.pre_tau = sim["pre_tau"]
     return model
 
 
@@ -315,9 +413,50 @@ def unbounded_adaptive_tau(tr, sim):
             break
     if rates is None or mu is None or s2 is None:
         return False
-    bound = float(sim.get("epsilon", 0.03)) * float(np.sum(rates))
+    bound = float(sim.get("epsilon") or 0.03) * float(np.sum(rates))
     cands = [bound / abs(m) for m in mu if m != 0] + [bound * bound / v for v in s2 if v != 0]
     return bool(cands) and min(cands) > 1e15
+
+
+def coded_adaptive_tau(rates, mu, s2, eps):
+    """the step size of `_get_adaptive_tau_step` recomputed in float64 by the coded formula from recorded statistics
+    (min over the non-zero entries of eps*sum(rates)/|mu| and (eps*sum(rates))**2/sigma2); None when it cannot be formed"""
+    rates = np.asarray(rates, float).ravel(); mu = np.asarray(mu, float).ravel(); s2 = np.asarray(s2, float).ravel()
+    mu = mu[mu != 0]; s2 = s2[s2 != 0]
+    if mu.size == 0 and s2.size == 0:
+        return 1.0
+    bound = float(eps if eps is not None else 0.03) * float(np.sum(rates))
+    with np.errstate(all="ignore"):
+        cands = ([float(np.min(bound / np.abs(mu)))] if mu.size else []) + ([float(np.min((bound ** 2) / s2))] if s2.size else [])
+    return min(cands) if cands else None
+
+
+def tau_underflowed(it, eps):
+    """True for a tau-leap iteration of an adaptive run whose coded step size is exactly 0.0 in float64 although every quantity it
+    is formed from is positive: (eps*sum(rates))**2 (or the quotient) underflowed.  In exact arithmetic the step is positive."""
+    if it.get("retry") or "mu" not in it or "sigma2" not in it:
+        return False
+    rates = np.asarray(it["rates"], float).ravel()
+    if not (np.all(rates >= 0) and float(np.sum(rates)) > 0):
+        return False
+    return coded_adaptive_tau(rates, it["mu"], it["sigma2"], eps) == 0.0
+
+
+def narrow_int_overflow(tr, x0, t0):
+    """True when an evaluator, called at the initial state during the run, returned something else than it returns for the same
+    state as float64: the state vector was handed over in a narrow integer dtype (int32) and a product overflowed.  Used only to
+    NAME the cause of an exception (signature); the exception itself is what is judged."""
+    x0f = np.array(x0, float)
+    for e in tr.log:
+        if e[0] != "fn" or not np.array_equal(e[2], x0f) or e[1] not in tr.evaluators:
+            continue
+        try:
+            ref = np.asarray(tr.evaluators[e[1]](x0f, e[3]), float)
+        except Exception:
+            continue
+        if ref.shape == np.asarray(e[4]).shape and not np.allclose(ref, e[4], rtol=1e-9, atol=1e-12):
+            return True
+    return False
 
 
 def segment(log, exact):
@@ -510,14 +649,25 @@ def tie_steps(model, case, jr, its, lims_json, mism, tags, max_report=3):
                 mm("step:stop-vs-append", "%s: model stops (%s), code appended x=%s" % (where, r.get("why"), X[k + 1].tolist()))
                 break
             # integer arithmetic is exact in doubles; with an explicit ODE term (x + pure*tau) the float is only close
+            # (beyond 2^53 a double no longer holds every integer: a leap of ~1e17 events - the adaptive step of the known
+            # finding C04-unbounded-adaptive-tau just below numpy's Poisson limit - is compared to rounding, not exactly)
             integral = bool(np.all(np.mod(X[k + 1], 1) == 0) and np.all(np.mod(x, 1) == 0)
-                            and not np.any(np.ravel(it.get("pure", 0.0))))
+                            and not np.any(np.ravel(it.get("pure", 0.0)))
+                            and max(float(np.abs(X[k + 1]).max()), float(np.abs(x).max())) < 2.0 ** 53)
             if not same_vec(r["x"], X[k + 1], None if integral else 1e-9):
                 mm("step:post-state", "%s: model x=%s code x=%s" % (where, [float(Fraction(v)) for v in r["x"]], X[k + 1].tolist()))
             if not close(Fraction(r["t"]), T[k + 1]):
                 mm("step:time", "%s: model t=%r code t=%r" % (where, float(Fraction(r["t"])), T[k + 1]))
             if not close(Fraction(r["dt"]), dT[k]):
-                mm("step:dt", "%s: model dt=%r code dt=%r" % (where, float(Fraction(r["dt"])), dT[k]))
+                if (not exact and pre_tau is None and not it["retry"]
+                        and (float(eps) * float(np.sum(np.abs(rates)))) ** 2 < 1e-300):
+                    # the coded formula squares eps*sum(rates): below ~1e-300 that intermediate is a denormal (a few significant
+                    # bits) or underflows to 0.0, while the exact-rational model keeps a positive step (e.g. 5e-164) - the regime
+                    # of the known findings C04-tau-below-ulp / C04-tau-underflows-to-zero; a float artefact, not a disagreement
+                    # of algorithms
+                    tags.append("tau_denormal_tie_skipped")
+                else:
+                    mm("step:dt", "%s: model dt=%r code dt=%r" % (where, float(Fraction(r["dt"])), dT[k]))
             if [int(c) for c in r["counts"]] != [int(c) for c in np.asarray(J[k]).ravel()]:
                 mm("step:counts", "%s: model %s code %s" % (where, r["counts"], np.asarray(J[k]).ravel().tolist()))
             obs_branch = "exact" if exact else ("retry" if it["retry"] else "tau")
@@ -542,15 +692,323 @@ def tie_steps(model, case, jr, its, lims_json, mism, tags, max_report=3):
     return stats
 
 
+# ----------------------------------------------------------------------------- sessions: several calls on ONE model instance
+# The Lean model (Pygom/Stoch.lean `jump`, `gridRows`, Pygom/Seed.lean `runMany`) makes one path a pure function of
+# (configuration in force at the call, x0, t0, horizon, draws): nothing a previous call, a previous configuration, another
+# instance or the FORM of an argument did can enter (Props/C04 `path_start`, `runMany_all_start`, `exact_ignores_tau_config`).
+# The sessions below probe exactly that on the real code: calls are made one after the other on one instance, with
+# configuration left over from earlier calls, initial values re-assigned in other forms, a sibling instance simulated in
+# between; every returned object is KEPT and compared again at the end; a fresh instance must reproduce a call's result.
+class Call:
+    """one `solve_stochast` call of a session: .index .op .sim (effective settings) .case (case with the x0 / sim in force)
+    .tr (Trace) .ts (time spec) .tobj (object handed over) .is_grid .grid (floats) .exact .x0 .kept .snap"""
+
+
+def default_session(case):
+    sim = case["sim"]
+    return [{"op": "run", "exact": sim["mode"] == "exact", "time": time_spec(sim), "iterations": 2, "np_seed": sim["np_seed"]}]
+
+
+def _same_obj(a, b):
+    if isinstance(a, np.ndarray) or isinstance(b, np.ndarray):
+        return isinstance(a, np.ndarray) and isinstance(b, np.ndarray) and a.dtype == b.dtype and a.shape == b.shape and np.array_equal(a, b)
+    return type(a) is type(b) and a == b
+
+
+def _flatten_result(res):
+    """the arrays of what solve_stochast returned, in a fixed order (the objects themselves, not copies)"""
+    out = []
+    if res is None:
+        return out
+    for part in res:
+        if isinstance(part, np.ndarray):
+            out.append(part)
+        else:
+            out.extend(list(part))
+    return out
+
+
+def _same_result(a, b):
+    fa, fb = _flatten_result(a), _flatten_result(b)
+    if len(fa) != len(fb):
+        return False, "different number of arrays"
+    for k, (u, v) in enumerate(zip(fa, fb)):
+        u, v = np.asarray(u), np.asarray(v)
+        if u.shape != v.shape:
+            return False, "array %d: shapes %s and %s" % (k, u.shape, v.shape)
+        if not np.array_equal(u, v):
+            w = np.argwhere(np.asarray(u != v)).tolist()[:1]
+            return False, "array %d differs at %s: %s vs %s" % (k, w, u.ravel()[:6].tolist(), v.ravel()[:6].tolist())
+    return True, ""
+
+
+def _configure(model, cfg):
+    model.pre_tau = cfg["pre_tau"]
+    model._epsilon = cfg["epsilon"] if cfg["epsilon"] is not None else 0.03
+
+
+def run_sibling(op, default_case):
+    """another live instance (same definition with other values, or another definition with overlapping names) is configured
+    and simulated; nothing of it is judged - the instance under test must not notice"""
+    c = dict(op.get("case") or default_case)
+    c["x0"] = op.get("x0", c["x0"]); c["params"] = op.get("params", c["params"])
+    c["sim"] = {"t0": op.get("t0", 0.0), "pre_tau": op.get("pre_tau"), "epsilon": op.get("epsilon"), "x0_form": op.get("x0_form"),
+                "t0_form": None}
+    try:
+        m = build_model(c)
+        traced_run(m, time_obj(op["time"]), bool(op.get("exact")), op.get("np_seed", 0), iterations=1, max_steps=60)
+    except Exception:
+        pass
+
+
+def run_session(case, judge, prop, tags, mism, viol, max_steps=MAX_STEPS):
+    """run the ops of `case["session"]` (default: one call described by case["sim"]) on one instance.
+    `judge(call, model) -> bool` is the property's own tie + direct oracle for one call (False ends the session).
+    Direct oracle of this function (no Lean): an array returned by an earlier call is unchanged by later operations (VIOLATION:
+    a result the caller holds turned wrong).  Probes of what the pure Lean model excludes but the properties do not state
+    (tag + broken correspondence `pure-model:...`, never a violation): the caller's objects and model.initial_state/time are
+    unchanged, a repeated call reproduces the earlier one, a fresh instance reproduces a call.  Wrong VALUES that follow from
+    such a side effect are reported by the property's own oracle in `judge` (which compares with the harness's own copies)."""
+    import copy
+    sim0 = case["sim"]
+    ops = case.get("session") or default_session(case)
+    model = build_model(case)
+    cur = {"x0": [int(v) for v in case["x0"]], "t0": float(sim0["t0"]), "pre_tau": sim0.get("pre_tau"), "epsilon": sim0.get("epsilon"),
+           "x0_form": sim0.get("x0_form") or "arr_int", "t0_form": sim0.get("t0_form") or "np_f64", "params": dict(case["params"])}
+    handed = [("initial state (%s)" % cur["x0_form"], model._verif_x0_arg, copy.deepcopy(model._verif_x0_arg))]
+    calls = []
+    sigmode = lambda c: c.sim["mode"].split("_")[0]
+    tags.append("x0_form:" + cur["x0_form"]); tags.append("t0_form:" + cur["t0_form"])
+    if len([o for o in ops if o["op"] == "run"]) > 1:
+        tags.append("session")
+
+    def v(what, kind, detail, call=None):
+        viol.append({"what": what, "signature": "%s:%s%s" % (prop, kind, (":" + sigmode(call)) if call is not None else ""), "detail": detail})
+
+    reported = set()
+
+    def side(what, kind, detail, call=None):
+        """something the PURE Lean model excludes (a path is a function of configuration, x0, t0, draws; nothing is written to)
+        but the property does not state: a tag and a broken correspondence, never a violation.  If wrong VALUES follow (a later
+        path starting elsewhere, a kept array overwritten) the property's own oracle reports those."""
+        tags.append("side_effect:" + kind)
+        if kind not in reported:
+            reported.add(kind)
+            mism.append({"what": "pure-model:" + kind, "detail": what + ": " + detail})
+
+    def check_handed(when, call=None):
+        ok = True
+        for h in list(handed):
+            label, obj, snap = h
+            if not _same_obj(obj, snap):
+                side("an object the caller passed in was written to", "caller-argument-modified",
+                     "%s: %s now reads %s, was %s" % (when, label, np.asarray(obj).tolist(), np.asarray(snap).tolist()), call)
+                handed.remove(h)
+        try:
+            mx = np.asarray(model.initial_state, float).ravel()
+            mt = float(model.initial_time)
+        except Exception as exc:
+            mx, mt = None, None
+        if mx is None or not (np.array_equal(mx, np.array(cur["x0"], float)) and mt == cur["t0"]):
+            side("the initial state / time held by the model is no longer the one that was assigned", "initial-values-modified",
+                 "%s: model.initial_state=%s initial_time=%r, assigned %s at t0=%r (form %s)"
+                 % (when, None if mx is None else mx.tolist(), mt, cur["x0"], cur["t0"], cur["x0_form"]), call)
+        return ok
+
+    for i, op in enumerate(ops):
+        kind = op["op"]
+        if kind == "set_pre_tau":
+            model.pre_tau = op["value"]; cur["pre_tau"] = op["value"]
+            tags.append("op:set_pre_tau" if op["value"] is not None else "op:clear_pre_tau")
+        elif kind == "set_epsilon":
+            model._epsilon = op["value"]; cur["epsilon"] = op["value"]
+            tags.append("op:set_epsilon")
+        elif kind == "set_iv":
+            x0_arg = make_x0(op["x0"], op.get("x0_form")); t0_arg = make_t0(op["t0"], op.get("t0_form"))
+            if op.get("via") == "separate":
+                model.initial_state = x0_arg; model.initial_time = t0_arg
+            else:
+                model.initial_values = (x0_arg, t0_arg)
+            changed = [int(a) for a in op["x0"]] != cur["x0"] or float(op["t0"]) != cur["t0"]
+            cur.update({"x0": [int(a) for a in op["x0"]], "t0": float(op["t0"]), "x0_form": op.get("x0_form") or "arr_int",
+                        "t0_form": op.get("t0_form") or "np_f64"})
+            handed.append(("initial state (%s, op %d)" % (cur["x0_form"], i), x0_arg, copy.deepcopy(x0_arg)))
+            tags.append("op:set_iv:" + ("other_values" if changed else "same_values"))
+            tags.append("x0_form:" + cur["x0_form"]); tags.append("t0_form:" + cur["t0_form"])
+        elif kind == "set_params":
+            model.parameters = {k: float(v) for k, v in op["params"].items()}
+            cur["params"] = dict(op["params"])
+            tags.append("op:set_params")
+        elif kind == "deepcopy":
+            # the calls that follow go to a deep copy of the configured instance: it carries the same configuration and
+            # initial values, and must not share anything writable with the original (whose returned arrays are still kept)
+            model = copy.deepcopy(model)
+            tags.append("op:deepcopy")
+        elif kind == "sibling":
+            run_sibling(op, case)
+            tags.append("op:sibling:" + ("other_definition" if op.get("case") else "same_definition"))
+        elif kind == "run":
+            c = Call()
+            c.index, c.op, c.exact, c.ts = i, op, bool(op["exact"]), op["time"]
+            c.is_grid = time_is_grid(c.ts)
+            c.grid = [float(g) for g in c.ts["values"]] if c.is_grid else None
+            mode = "exact" if c.exact else ("tau_adaptive" if cur["pre_tau"] is None else "tau_fixed")
+            c.sim = {"mode": mode, "t0": cur["t0"], "T": float(c.ts["values"][-1]), "np_seed": op["np_seed"], "epsilon": cur["epsilon"],
+                     "pre_tau": cur["pre_tau"], "time": c.ts, "grid": c.grid, "grid_kind": c.ts["kind"], "x0_form": cur["x0_form"],
+                     "t0_form": cur["t0_form"], "iterations": op.get("iterations", 2)}
+            c.x0 = list(cur["x0"])
+            c.case = dict(case, x0=c.x0, sim=c.sim, params=dict(cur["params"]))
+            c.leftover = c.exact and (cur["pre_tau"] is not None or cur["epsilon"] is not None)
+            c.tobj = time_obj(c.ts)
+            handed_t = ("time argument (%s, op %d)" % (c.ts["kind"], i), c.tobj, copy.deepcopy(c.tobj))
+            tags.append("time:" + c.ts["kind"])
+            if c.is_grid and c.grid[0] > cur["t0"]: tags.append("grid_starts_after_t0")
+            if c.leftover: tags.append("exact_with_leftover_tau_config")
+            if len(calls): tags.append("call>=2:" + mode.split("_")[0])
+            c.tr = traced_run(model, c.tobj, c.exact, op["np_seed"], iterations=c.sim["iterations"], max_steps=max_steps)
+            if (isinstance(c.tr.error, AttributeError) and "tolist" in str(c.tr.error) and cur["t0_form"] in ("py_float", "py_int")):
+                # the unchanged pygom does not support a Python number as initial time in stochastic simulation
+                tags.append("rejected_form:t0:" + cur["t0_form"])
+                return calls
+            go_on = judge(c, model)
+            c.kept = _flatten_result(c.tr.result)
+            c.snap = [np.array(a, copy=True) for a in c.kept]
+            calls.append(c)
+            handed.append(handed_t)
+            ok = check_handed("after call %d (op %d, %s, %s)" % (len(calls), i, mode, c.ts["kind"]), c)
+            if not go_on or not ok:
+                break
+            if op.get("repeat_of") is not None and c.tr.result is not None:
+                first = [k for k in calls if k.index == op["repeat_of"]]
+                if first and first[0].tr.result is not None:
+                    same, why = _same_result(first[0].tr.result, c.tr.result)
+                    tags.append("probe:repeat")
+                    if not same:
+                        side("a call repeated with the first call's configuration, initial values, horizon and seed does not reproduce it",
+                             "history-dependent-path:repeat", "op %d vs op %d: %s" % (first[0].index, i, why), c)
+            if op.get("fresh_ref") and c.tr.result is not None:
+                fc = dict(case, x0=c.x0, sim=dict(c.sim), params=dict(cur["params"]))
+                fm = build_model(fc)
+                _configure(fm, cur)
+                ftr = traced_run(fm, time_obj(c.ts), c.exact, op["np_seed"], iterations=c.sim["iterations"], max_steps=max_steps)
+                tags.append("probe:fresh_reference")
+                if ftr.result is not None:
+                    same, why = _same_result(ftr.result, c.tr.result)
+                    if not same:
+                        side("a freshly built model with the same configuration, initial values, horizon and seed returns another path",
+                             "history-dependent-path:fresh", "op %d (%s): %s" % (i, mode, why), c)
+        else:
+            raise ValueError("unknown session op %r" % kind)
+    # every returned object, again, after everything that followed
+    for c in calls:
+        for k, (a, b) in enumerate(zip(c.kept, c.snap)):
+            if not (np.asarray(a).shape == b.shape and np.array_equal(np.asarray(a), b)):
+                v("an array returned by an earlier call was changed by later operations on the model", "returned-array-overwritten",
+                  "call at op %d, array %d: returned %s, now %s" % (c.index, k, b.ravel()[:8].tolist(), np.asarray(a).ravel()[:8].tolist()), c)
+                break
+    return calls
+
+
+def alt_x0(r, x0, lims=None):
+    """another integer initial state for the same model (permuted, one component changed), inside the declared limits"""
+    y = list(x0)
+    r.shuffle(y)
+    k = r.randrange(len(y))
+    y[k] = max(0, y[k] + r.choice([1, 2, 5]))
+    if y == list(x0):
+        y[k] += 1
+    if lims is not None and within(lims, y):
+        return list(x0)
+    return y
+
+
+def gen_session(r, base, sim, *, lims=None, grid_share=0.35, exact_share=0.5, runs=(3, 5), sibling_base=None, x0_forms=X0_FORMS):
+    """ops of one session for a generated model: every random choice from `r`, the result is plain JSON"""
+    t0, T = float(sim["t0"]), float(sim["T"])
+    tot = max(base["tot0"], 1e-3)
+    nS = len(base["x0"])
+    forms = [f for f in x0_forms if f != "scalar" or nS == 1]
+    cfg = {"x0": list(base["x0"]), "t0": t0, "pre_tau": sim.get("pre_tau"), "epsilon": sim.get("epsilon"),
+           "x0_form": sim.get("x0_form") or "arr_int", "t0_form": sim.get("t0_form") or "np_f64", "params": dict(base["params"])}
+    ops, first = [], None
+
+    def tau_value():
+        return float(min(r.choice([0.3, 1, 2, 5]) / tot, T - t0))
+
+    def set_iv(x0, t0v, x0_form=None, t0_form=None):
+        op = {"op": "set_iv", "x0": list(x0), "t0": t0v, "x0_form": x0_form or r.choice(forms),
+              "t0_form": t0_form or r.choice(["np_f64", "np_f64", "np_i64", "np_f32"]), "via": r.choice(["values", "values", "separate"])}
+        ops.append(op)
+        cfg.update({"x0": list(x0), "t0": t0v, "x0_form": op["x0_form"], "t0_form": op["t0_form"]})
+
+    n = r.randint(*runs)
+    for k in range(n):
+        u = r.random()
+        if u < 0.35:
+            cfg["pre_tau"] = tau_value(); ops.append({"op": "set_pre_tau", "value": cfg["pre_tau"]})
+        elif u < 0.5 and cfg["pre_tau"] is not None:
+            cfg["pre_tau"] = None; ops.append({"op": "set_pre_tau", "value": None})
+        if r.random() < 0.25:
+            cfg["epsilon"] = r.choice([0.01, 0.03, 0.1, 0.3]); ops.append({"op": "set_epsilon", "value": cfg["epsilon"]})
+        if k > 0 and r.random() < 0.4:
+            if r.random() < 0.5:
+                set_iv(cfg["x0"], cfg["t0"])                                      # same values, another object / form
+            else:
+                t_alt = cfg["t0"] + 1.0 if (r.random() < 0.4 and T - cfg["t0"] > 2.5) else cfg["t0"]
+                set_iv(alt_x0(r, base["x0"], lims) if r.random() < 0.7 else base["x0"], t_alt)
+        if k > 0 and r.random() < 0.2:
+            # other parameter values (rates scale by at most 2: the horizon stays adequate), or the first ones again
+            cfg["params"] = dict(base["params"]) if cfg["params"] != base["params"] else {p: float(v) * r.choice([0.5, 2.0]) for p, v in base["params"].items()}
+            ops.append({"op": "set_params", "params": dict(cfg["params"])})
+        if k > 0 and r.random() < 0.15:
+            ops.append({"op": "deepcopy"})
+        if k > 0 and r.random() < 0.3:
+            sop = {"op": "sibling", "x0": alt_x0(r, base["x0"], lims), "params": {p: float(v) * r.choice([0.5, 2.0]) for p, v in base["params"].items()},
+                   "t0": t0, "pre_tau": r.choice([None, tau_value()]), "epsilon": r.choice([None, 0.3]), "exact": r.random() < 0.5,
+                   "x0_form": r.choice(forms), "time": {"kind": "float", "values": [T]}, "np_seed": r.randrange(2 ** 31)}
+            if sibling_base is not None and r.random() < 0.5:
+                sop["case"] = {"spec": sibling_base["spec"], "meta": sibling_base["meta"], "x0": sibling_base["x0"], "params": sibling_base["params"]}
+                sop["x0"] = sibling_base["x0"]; sop["params"] = sibling_base["params"]
+                if len(sibling_base["x0"]) != 1 and sop["x0_form"] == "scalar":
+                    sop["x0_form"] = "arr_f64"
+            ops.append(sop)
+        exact = r.random() < exact_share
+        time = gen_grid_time(r, cfg["t0"], T) if r.random() < grid_share else gen_scalar_time(r, T)
+        op = {"op": "run", "exact": exact, "time": time, "iterations": r.choice([1, 2, 2, 3]), "np_seed": r.randrange(2 ** 31)}
+        ops.append(op)
+        if first is None:
+            first = (len(ops) - 1, {k_: (dict(v_) if isinstance(v_, dict) else v_) for k_, v_ in cfg.items()}, op)
+    if r.random() < 0.7:
+        ops[max(i for i, o in enumerate(ops) if o["op"] == "run")]["fresh_ref"] = True
+    if r.random() < 0.6 and n >= 2:
+        idx, c0, op0 = first
+        if cfg["pre_tau"] != c0["pre_tau"]:
+            ops.append({"op": "set_pre_tau", "value": c0["pre_tau"]})
+        if cfg["epsilon"] != c0["epsilon"]:
+            ops.append({"op": "set_epsilon", "value": c0["epsilon"] if c0["epsilon"] is not None else 0.03})
+        if cfg["params"] != c0["params"]:
+            ops.append({"op": "set_params", "params": dict(c0["params"])})
+        if (cfg["x0"], cfg["t0"]) != (c0["x0"], c0["t0"]) or r.random() < 0.5:
+            # the first call's VALUES, handed over in a form of the other numeric kind (int <-> float) when there is one:
+            # the result may depend on the values only
+            was_float = "float" in c0["x0_form"] or "f64" in c0["x0_form"]
+            other = [f for f in forms if (("float" in f or "f64" in f) != was_float)]
+            set_iv(c0["x0"], c0["t0"], x0_form=r.choice(other) if other and r.random() < 0.7 else None)
+        ops.append({"op": "run", "exact": op0["exact"], "time": op0["time"], "iterations": op0["iterations"], "np_seed": op0["np_seed"],
+                    "repeat_of": idx})
+    return ops
+
+
 # ----------------------------------------------------------------------------- direct oracles (no Lean)
-def oracle_c04(model, case, X, J, T, exact, finalT, truncated, its, lims, evaluators, viol, sig_extra=""):
+def oracle_c04(model, case, X, J, T, exact, finalT, truncated, its, lims, evaluators, viol, sig_extra="", where="", dT=None):
     """the property itself on the real output arrays"""
     x0 = np.array(case["x0"], float); t0 = case["sim"]["t0"]
     shape = "nS=%s,nE=%s" % ("1" if X.shape[1] == 1 else "n", "1" if (J.shape[1] if J.ndim == 2 else 0) == 1 else "n")
     mode = "exact" if exact else "tau"
 
     def v(what, kind, detail):
-        viol.append({"what": what, "signature": "C04:%s:%s:%s%s" % (kind, mode, shape, sig_extra), "detail": detail})
+        viol.append({"what": what, "signature": "C04:%s:%s:%s%s" % (kind, mode, shape, sig_extra),
+                     "detail": detail + ((" [" + where + "]") if where else "")})
 
     if not (np.array_equal(X[0], x0) and T[0] == t0):
         v("path does not start at the initial state/time", "start", "X[0]=%s T[0]=%r x0=%s t0=%r" % (X[0].tolist(), T[0], x0.tolist(), t0))
@@ -561,8 +1019,38 @@ def oracle_c04(model, case, X, J, T, exact, finalT, truncated, its, lims, evalua
         v("non-finite time or state recorded", "nonfinite", "T tail %s" % T[-3:].tolist())
         return
     if len(T) > 1 and not np.all(np.diff(T) > 0):
-        k = int(np.argmax(~(np.diff(T) > 0)))
-        v("times are not strictly increasing", "times", "T[%d]=%r T[%d]=%r" % (k, T[k], k + 1, T[k + 1]))
+        bad = [int(k) for k in np.flatnonzero(~(np.diff(T) > 0))]
+        # recorded defect `C04-tau-below-ulp`: an ADAPTIVE tau-leap step whose reported step size is positive but smaller than
+        # half an ulp of t, so that t + dt == t in float64 (pure rounding: no minimum step size, Cao et al. eqs 11-13 are a TODO
+        # in the source).  Only that; a step with dt <= 0, a decrease, a first-reaction step, exact mode or a fixed tau is judged.
+        adaptive = (not exact) and case["sim"].get("mode") == "tau_adaptive" and case["sim"].get("pre_tau") is None
+        def below_ulp(k):
+            return (adaptive and dT is not None and k < len(dT) and float(dT[k]) > 0.0 and T[k + 1] == T[k]
+                    and float(T[k]) + float(dT[k]) == float(T[k]) and not (k < len(its) and its[k].get("retry")))
+        # recorded defect `C04-tau-underflows-to-zero` (the same collapse taken further): the reported step size is exactly 0.0
+        # because (eps*sum(rates))**2 underflowed in float64 while every recorded statistic is positive; state and time then
+        # never change again.  Recomputed here from the recorded statistics by the coded formula.
+        eps_now = case["sim"].get("epsilon")
+        def underflow_zero(k):
+            return (adaptive and dT is not None and k < len(dT) and float(dT[k]) == 0.0 and T[k + 1] == T[k]
+                    and k < len(its) and its[k].get("complete") and tau_underflowed(its[k], eps_now))
+        ulp_steps = [k for k in bad if below_ulp(k)]
+        zero_steps = [k for k in bad if not below_ulp(k) and underflow_zero(k)]
+        other = [k for k in bad if k not in ulp_steps and k not in zero_steps]
+        if other:
+            k = other[0]
+            v("times are not strictly increasing", "times", "T[%d]=%r T[%d]=%r%s" % (k, T[k], k + 1, T[k + 1], "" if dT is None or k >= len(dT) else " reported dt=%r" % float(dT[k])))
+        else:
+            if ulp_steps:
+                k = ulp_steps[0]
+                viol.append({"what": "times are not strictly increasing: an adaptive tau-leap step with a positive step size below half an ulp of t (t + dt == t)",
+                             "signature": "C04:times:tau_adaptive:dt-positive-below-ulp",
+                             "detail": "%d such steps, first: T[%d]=%r dt=%r x=%s" % (len(ulp_steps), k, T[k], float(dT[k]), X[k].tolist()) + ((" [" + where + "]") if where else "")})
+            if zero_steps:
+                k = zero_steps[0]
+                viol.append({"what": "times are not strictly increasing: the adaptive tau-leap step size underflowed to exactly 0.0 (state and time no longer change)",
+                             "signature": "C04:times:tau_adaptive:dt-underflows-to-zero",
+                             "detail": "%d such steps, first: T[%d]=%r dt=0.0 x=%s rates=%s" % (len(zero_steps), k, T[k], X[k].tolist(), np.ravel(its[k]["rates"]).tolist()) + ((" [" + where + "]") if where else "")})
     if len(J):
         Jf = np.asarray(J, float)
         if Jf.ndim != 2 or not np.all(np.mod(Jf, 1) == 0) or not np.all(Jf >= 0):
@@ -586,6 +1074,8 @@ def oracle_c04(model, case, X, J, T, exact, finalT, truncated, its, lims, evalua
             if not exact and case.get("has_ode") and not retried:
                 exp = exp + np.asarray(pure(X[k], T[k]), float).ravel() * (T[k + 1] - T[k])
                 ok = np.allclose(X[k + 1], exp, rtol=1e-9, atol=1e-9)
+            elif max(float(np.abs(X[k + 1]).max()), float(np.abs(X[k]).max()), float(np.abs(Jf[k]).max())) >= 2.0 ** 53:
+                ok = np.allclose(X[k + 1], exp, rtol=1e-12, atol=0.0)      # integers beyond 2^53 are not exact in doubles
             else:
                 ok = np.array_equal(X[k + 1], exp)
             if not ok:
